@@ -325,6 +325,10 @@ class CaseRun:
             real.now = int(kvs["t"])
             try:
                 d = real.datagram_of(eps, kvs, muts, self.key_of)
+                identity = False
+                if kvs["d"].startswith("@") and (muts or "rekey" in kvs):
+                    e0, k0 = kvs["d"][1:].split(":")
+                    identity = (d == eps[e0]["emits"][int(k0)])
             except (IndexError, KeyError):
                 return ["noemit"]
             try:
@@ -349,7 +353,7 @@ class CaseRun:
             out.append("ret=%s ev=%s" % (ret, ",".join(evs) if evs else "-"))
             if log is not None:
                 log.append({"op": "recv", "e": w[1], "t": real.now, "ret": ret, "ev": evs, "spec": kvs["d"], "muts": muts,
-                            "rekey": kvs.get("rekey"), "before": before, "after": real.dump(conn),
+                            "rekey": kvs.get("rekey"), "identity": identity, "before": before, "after": real.dump(conn),
                             "hdrseq": int(hdr.seq), "keyed": bool(conn.session_key_bytes)})
         elif op == "tmo":
             conn = eps[w[1]]["conn"]
@@ -471,8 +475,10 @@ def attacker_recv(real, rng, run, dst, t, emitted):
             mut = "mut=set:4:%08x" % rng.getrandbits(32)
         else:
             mut = "mut=set:0:%s" % rng.choice([b"FSOS", b"FSOC", b"XSOS"]).hex()
-    else:
+    elif run.key_of.get((src, k)):
         return "recv %s t=%d d=@%s:%d rekey=%s" % (dst, t, src, k, KEY2.hex())
+    else:
+        mut = "mut=flip:%d" % rng.randrange(dlen * 8)
     return "recv %s t=%d d=@%s:%d %s" % (dst, t, src, k, mut)
 
 
@@ -575,3 +581,53 @@ def model_lines(case):
 
 def add_set_extras():
     pass
+
+
+# ======================================================================= projections and shared runner
+
+ANSWERING = ("send", "disc", "build", "recv", "tmo", "take", "dump")
+
+
+def answering_ops(case):
+    return [l for l in case[1:] if l.split() and l.split()[0] in ANSWERING]
+
+
+def make_post(fn):
+    """fn(op_line, out_line) -> projected line or None; applied to impl and model output alike"""
+    def post(case, outs):
+        ops = answering_ops(case)
+        res = []
+        for i, o in enumerate(outs):
+            op = ops[i] if i < len(ops) else "?"
+            r = fn(op, o)
+            if r is not None:
+                res.append(r)
+        if len(outs) != len(ops):
+            res.append("#outputs=%d ops=%d" % (len(outs), len(ops)))
+        return res
+    return post
+
+
+def ev_filter(line, kinds):
+    """keep only the events of the given kinds in a 'ret=.. ev=..' / 'ev=..' line"""
+    head, _, evs = line.rpartition("ev=")
+    keep = [e for e in evs.split(",") if e.split(":")[0] in kinds]
+    return head + "ev=" + (",".join(keep) if keep else "-")
+
+
+def dump_fields(line, fields):
+    parts = dict(x.split("=", 1) for x in line.split() if "=" in x)
+    return " ".join("%s=%s" % (f, parts.get(f, "?")) for f in fields)
+
+
+def run_cases(ctx, real, cases, post, layer, rule, nontrivial=None):
+    """correspondence + collection of the structured logs of the real runs (for the monitors)"""
+    logs = {}
+
+    def impl_fn(case):
+        log = []
+        out = real.run_case(case, log)
+        logs[core.case_id(case)] = log
+        return out
+    bad = ctx.correspondence(layer, "Conn", cases, impl_fn, nontrivial, rule, post=post)
+    return logs, bad
